@@ -34,6 +34,14 @@ ALLOWED_AXIOMS = {
     "sig_not_dec",
     "Classical_Prop.classic",
     "classic",
+    # declared by Coq's standard library (Floats/FloatAxioms.v): the specification of the primitive binary64
+    # comparisons and of the decoding Prim2SF, used by Proofs/FloatOrder.v (Props/C01_float_order.v, C17_float.v).
+    # The primitive types/operations themselves (PrimFloat.float, PrimFloat.ltb, PrimFloat.eqb, PrimInt63.int, ...)
+    # are listed by Print Assumptions too and are accepted by prefix in standard_proof_phase.
+    "FloatAxioms.ltb_spec",
+    "FloatAxioms.eqb_spec",
+    "FloatAxioms.SF2Prim_Prim2SF",
+    "FloatAxioms.Prim2SF_valid",
 }
 
 
